@@ -362,3 +362,51 @@ def linspace(start, stop, num=50, endpoint=True, **kw):
     for i, r in enumerate(rows):
         out[i] = r
     return out
+
+
+def _to_float_array(x):
+    a = np.asarray(x)
+    if a.dtype == object and not is_symbolic(a):
+        return np.array([v.concrete() if isinstance(v, SReal) else v for v in a.flat], dtype=float).reshape(a.shape)
+    return a
+
+
+def np_isclose(a, b, rtol=1e-05, atol=1e-08, equal_nan=False):
+    CALLS[0] += 1
+    if not (is_symbolic(a) or is_symbolic(b)):
+        return np.isclose(_to_float_array(a), _to_float_array(b), rtol=rtol, atol=atol, equal_nan=equal_nan)
+    aa, bb = np.broadcast_arrays(np.asarray(a, dtype=object), np.asarray(b, dtype=object))
+    out = np.empty(aa.shape, dtype=bool)
+    for i, x in np.ndenumerate(aa):
+        y = bb[i]
+        out[i] = bool(abs(x - y) <= atol + rtol * abs(y))
+    return out if out.shape else bool(out)
+
+
+def allclose(a, b, rtol=1e-05, atol=1e-08, equal_nan=False):
+    CALLS[0] += 1
+    return bool(np.all(np_isclose(a, b, rtol=rtol, atol=atol, equal_nan=equal_nan)))
+
+
+def _arg_extreme(x, axis, pick):
+    a = np.asarray(x)
+    if a.dtype != object or not is_symbolic(a):
+        return pick(_to_float_array(a), axis=axis) if axis is not None else pick(_to_float_array(a))
+    if axis is not None or a.ndim != 1:
+        raise Unsupported("np.argmin/argmax with axis on symbolic data")
+    best = 0
+    for i in range(1, len(a)):
+        better = (a[i] < a[best]) if pick is np.argmin else (a[i] > a[best])
+        if bool(better):
+            best = i
+    return best
+
+
+def argmin(x, axis=None, **kw):
+    CALLS[0] += 1
+    return _arg_extreme(x, axis, np.argmin)
+
+
+def argmax(x, axis=None, **kw):
+    CALLS[0] += 1
+    return _arg_extreme(x, axis, np.argmax)
